@@ -80,7 +80,7 @@ Proof. exact stuff_unstuff. Qed.
 Print Assumptions C02_stuff_unstuff.
 
 (* BuildOptimalHuffmanTable (libjpeg's jpeg_gen_optimal_table: merge loop with pseudo symbol 256,
-   others-chains, 32 -> 16 length limiting, removal of the pseudo symbol), applied to 256
+   others-chains, 256 -> 16 length limiting, removal of the pseudo symbol), applied to 256
    non-negative counters that are zero outside the categories 0..16 and not all zero, ALWAYS
    returns a valid canonical table (16 byte counts, Kraft sum <= 1, distinct byte symbols, as
    many symbols as codes) that contains every symbol with a non-zero count.  Proof: every tree
@@ -93,6 +93,22 @@ Theorem C02_build_table_ok : forall freqs, freqs_ok freqs ->
     (forall i, 0 <= i < 256 -> znth freqs i 0 <> 0 -> In i vals).
 Proof. exact build_optimal_ok. Qed.
 Print Assumptions C02_build_table_ok.
+
+(* For ANY 256 non-negative counters with sum < 2^63 (not only those of the lossless encoders)
+   the merge loop of BuildOptimalHuffmanTable terminates with all code sizes <= 256 (a forest of
+   257 trees undergoes at most 256 merges), so `bits[size]++` on the 257-entry array cannot index
+   out of range (finding F48: the array had 33 entries), and the function reduces to the length
+   limiting of that count vector.  (That the limiting itself never fails for arbitrary vectors is
+   build_optimal_no_panic_statement, not proved.) *)
+Theorem C02_build_count_sizes_ok : forall freqs, freqs_gen freqs ->
+  exists cs bits,
+    merge_loop 258 (freq0 freqs) (repeat 0 257) (repeat (-1) 257) = Ok cs /\
+    count_sizes cs (repeat 0 257) = Ok bits /\
+    build_optimal freqs =
+    obind (limit_all sizes_hi bits) (fun bits' =>
+      Ok (firstn 16 (skipn 1 (remove_pseudo 257 bits' 256)), opt_values cs)).
+Proof. exact build_optimal_count_sizes_ok. Qed.
+Print Assumptions C02_build_count_sizes_ok.
 
 (* lossless.Decode (lossless.Encode img pred) = img with its geometry and precision, for every
    well-formed image (1 or 3 components, P in 2..16, samples below 2^P in the 8-bit / 16-bit
